@@ -31,6 +31,7 @@ func init() {
 	execs["c15.addr"] = execC15Addr
 	execs["c15.next"] = execC15Next
 	execs["c15.send"] = execC15Send
+	execs["c15.history"] = execC15History
 	gens["C15"] = genC15
 }
 
@@ -257,7 +258,15 @@ func execC15Send(in sx.V) sx.V {
 	} else {
 		chain.last = pollAnswer{err: true}
 	}
-	w, err := c15Wallet(l, chain)
+	lifeNs := int64(wallet.DefaultMessageLifetime)
+	options := woptsFromSx(l[2]).options()
+	if len(l) >= 12 {
+		if p := optZfrom(l[10]); p != nil {
+			lifeNs = *p
+			options = append(options, wallet.WithMessageLifetime(time.Duration(lifeNs)))
+		}
+	}
+	w, err := wallet.New(ed25519.NewKeyFromSeed(l[len(l)-1].Bytes), wallet.Version(l[0].I()), chain, options...)
 	if err != nil {
 		return sx.L(sx.A("err"), sx.L())
 	}
@@ -296,15 +305,12 @@ func execC15Send(in sx.V) sx.V {
 		if ms, e := wallet.ExtractRawMessages(ver, root); e == nil {
 			n = len(ms)
 		}
-		proj = sx.L(sx.N(wc), sx.Bits(eb[15:271]), init, sx.N(bodySeqno(ver, lastRef(root))), sx.Nat(n))
-		// expiry = now + default lifetime (3 minutes), as uint32
+		// expiry relative to the clock: the configured lifetime when valid_until lies in [before+life, sent+life]
+		obs := uint64(1) << 40
 		if d := decodeProj(ver, root); d.K == sx.KL {
-			vu := int64(d.List[1].U64())
-			lo, hi := before.Add(wallet.DefaultMessageLifetime).Unix(), time.Now().Add(wallet.DefaultMessageLifetime).Unix()
-			if vu < lo-1 || vu > hi+1 {
-				return sx.L(sx.A("harness-error"), sx.A("valid-until"))
-			}
+			obs = expiryObserved(uint32(d.List[1].U64()), false, lifeNs, before, chain.sentAt)
 		}
+		proj = sx.L(sx.N(wc), sx.Bits(eb[15:271]), init, sx.N(bodySeqno(ver, lastRef(root))), sx.Nat(n), sx.N(obs))
 	} else if len(chain.payloads) > 1 {
 		return sx.L(sx.A("harness-error"), sx.A("sent-twice"))
 	}
@@ -319,6 +325,90 @@ func execC15Send(in sx.V) sx.V {
 		}
 	}
 	return sx.L(sx.A(res), proj)
+}
+
+// ---- c15.history: one Wallet object, a sequence of calls with the caller modifying what it got back
+
+// (ver pk opts seed (op ...)); op: 'stateinit | ('mutate kind cell) | 'address | ('next acct)
+func historyRun(ver wallet.Version, seed []byte, o wopts, ops []sx.V, fresh bool) sx.V {
+	mk := func() (wallet.Wallet, error) {
+		return wallet.New(ed25519.NewKeyFromSeed(seed), ver, &fakeChain{}, o.options()...)
+	}
+	w, err := mk()
+	if err != nil {
+		return sx.A("err")
+	}
+	var last *tlb.StateInit
+	var answers []sx.V
+	for _, op := range ops {
+		if fresh { // reference run: a new wallet (and nothing to mutate) for every call
+			if w, err = mk(); err != nil {
+				return sx.A("err")
+			}
+			last = nil
+		}
+		ans := func() (out sx.V) {
+			defer func() {
+				if rec := recover(); rec != nil {
+					out = sx.A("panic")
+				}
+			}()
+			switch {
+			case op.IsA("stateinit"):
+				si, err := w.StateInit()
+				if err != nil {
+					return sx.A("err")
+				}
+				last = si
+				return sx.Bytes(mustHash(stateInitCell(si)))
+			case op.IsA("address"):
+				a := w.GetAddress()
+				out := addrSx(a, nil)
+				a.Address[0] ^= 0xff // the caller's copy
+				a.Workchain++
+				return out
+			case op.Head() == "mutate":
+				if last != nil {
+					c := cellFromSx(op.List[2])
+					switch op.List[1].I() {
+					case 0:
+						last.Data.Exists = true
+						last.Data.Value.Value = *c
+					case 1:
+						last.Special.Exists = true
+						last.Special.Value.Tick = true
+					case 2:
+						last.Code.Exists = false
+					case 3:
+						var k tlb.Bits256
+						k[0] = 1
+						last.Library.Put(k, tlb.SimpleLib{Public: true, Root: *c})
+					default:
+						*last = tlb.StateInit{}
+					}
+				}
+				return sx.A("ok")
+			default: // ('next acct)
+				p, err := wallet.VerifNextMessageParams(&w, shardAccount(op.List[1]))
+				if err != nil {
+					return sx.A("err")
+				}
+				init := sx.L()
+				if p.Init != nil {
+					init = sx.L(sx.Bytes(mustHash(stateInitCell(p.Init))))
+					last = p.Init
+				}
+				return sx.L(sx.N(uint64(p.Seqno)), init)
+			}
+		}()
+		answers = append(answers, ans)
+	}
+	return sx.L(answers...)
+}
+
+func execC15History(in sx.V) sx.V {
+	l := in.List
+	return historyRun(wallet.Version(l[0].I()), l[3].Bytes, woptsFromSx(l[2]), l[4].List, false)
 }
 
 // ---- generator
@@ -705,6 +795,41 @@ func genC15(c *Ctx) {
 			}
 		}
 	}
+	// 2c. histories on ONE wallet object: calls interleaved with the caller overwriting the values it was handed
+	// (returned *StateInit, the Init of NextMsgParams, its copy of the address); every answer must be the answer of a
+	// fresh wallet
+	for _, ver := range c15AddrVersions {
+		for rep := 0; rep < c.Scale(2, 12); rep++ {
+			seed := c14Seed(r)
+			pk := ed25519.NewKeyFromSeed(seed).Public().(ed25519.PublicKey)
+			o := randOpts(r)
+			var ops []sx.V
+			n := 4 + r.Intn(6)
+			for i := 0; i < n; i++ {
+				switch k := r.Intn(10); {
+				case k < 3 || i == 0:
+					ops = append(ops, sx.A("stateinit"))
+				case k < 6:
+					ops = append(ops, sx.L(sx.A("mutate"), sx.Nat(r.Intn(5)), cellToSx(randTinyCell(r, 1))))
+				case k < 7:
+					ops = append(ops, sx.A("address"))
+				default:
+					st, _ := acctSx(r, ver, r.Intn(4))
+					ops = append(ops, sx.L(sx.A("next"), st))
+				}
+			}
+			if rep == 0 { // the plain scenario: get, overwrite, get again, send to a non-existent account
+				ops = []sx.V{sx.A("stateinit"), sx.L(sx.A("mutate"), sx.Nat(0), cellToSx(randTinyCell(r, 1))), sx.A("stateinit"),
+					sx.L(sx.A("next"), sx.A("none")), sx.L(sx.A("mutate"), sx.Nat(4), cellToSx(randTinyCell(r, 0))), sx.L(sx.A("next"), sx.A("uninit")),
+					sx.A("address"), sx.A("stateinit")}
+			}
+			in := sx.L(sx.Nat(int(ver)), sx.Bytes(pk), o.sx(), sx.Bytes(seed), sx.L(ops...))
+			out := c.Emit("c15.history", in, fmt.Sprintf("history|v%d|len=%d", int(ver), len(ops)/3))
+			if ref := historyRun(ver, seed, o, ops, true); out.String() != ref.String() {
+				c.Fail("c15.history", in, "c15-history-dependence", "an answer of a reused wallet object differs from the answer of a fresh wallet: "+trunc(out.String(), 300)+" / "+trunc(ref.String(), 300))
+			}
+		}
+	}
 	// 3. SendV2 against scripted histories
 	type hist struct {
 		polls []int64 // >=0 seqno answer, -1 error
@@ -784,12 +909,13 @@ func genC15(c *Ctx) {
 				if h.last >= 0 {
 					last = sx.L(sx.N(uint64(h.last) & 0xffffffff))
 				}
-				in := sx.L(sx.Nat(int(ver)), sx.Bytes(pk), o.sx(), st, ms.sx(), sx.Z(wait), sx.B(r.Chance(8)), sx.L(script...), last, sx.L(ssx...), sx.Bytes(seed))
+				life := c14Lifetimes[(int(ver)+kind+rep+int(c.Seed))%len(c14Lifetimes)]
+				in := sx.L(sx.Nat(int(ver)), sx.Bytes(pk), o.sx(), st, ms.sx(), sx.Z(wait), sx.B(r.Chance(8)), sx.L(script...), last, sx.L(ssx...), optZsx(life), sx.Bytes(seed))
 				sendErr := in.List[6].Bool
 				out := c.Emit("c15.send", in, fmt.Sprintf("send|v%d|%s|wait=%d|%s", int(ver), c15Coarse(label), wait, c15HistBucket(h.name)))
 				// oracle: the verdict of a send that reached SendMessage, from the script alone
 				// (scripts advance at poll <= 2, i.e. 40 ms into a 200 ms deadline, or never, so scheduling cannot change the verdict)
-				if out.K == sx.KL && len(out.List) == 2 && out.List[1].K == sx.KL && len(out.List[1].List) == 5 {
+				if out.K == sx.KL && len(out.List) == 2 && out.List[1].K == sx.KL && len(out.List[1].List) == 6 {
 					want := "err"
 					switch {
 					case sendErr:
@@ -810,6 +936,14 @@ func genC15(c *Ctx) {
 					}
 					if !out.List[0].IsA(want) {
 						c.Fail("c15.send", in, "c15-confirmation", fmt.Sprintf("send returned %s, the poll history (%s) requires %s", out.List[0].String(), h.name, want))
+					}
+					// expiry = now + the lifetime the wallet was configured with
+					wantLife := int64(wallet.DefaultMessageLifetime)
+					if life != nil {
+						wantLife = *life
+					}
+					if out.List[1].List[5].U64() != uint64(uint32(floorDiv(wantLife, 1000000000))) {
+						c.Fail("c15.send", in, "c15-send-expiry", "the sent message does not expire at now + the configured lifetime")
 					}
 					// the seqno in the message is the one stored in the account data (0 when not active)
 					if ver != wallet.HighLoadV2R2 && out.List[1].List[3].U64() != sent {
